@@ -241,10 +241,32 @@
    : (bg_size)(i) == G_Q ? (const bg_list *)(g)->adjacencyList.rowQ           \
                          : (const bg_list *)&bg_scratch_row.row)
 #define D_ROW_LOADED_C(g, i)                                                  \
-  (((bg_size)(i) == G_P || (bg_size)(i) == G_Q) ||                            \
-   (bg_scratch_row.valid && bg_scratch_row.from == &(g)->adjacencyList &&     \
-    bg_scratch_row.row.idx == (bg_size)(i) && bg_scratch_row.row.bound <= (g)->size && \
-    BG_LIST_WF(bg_scratch_row.row)))
+  (D_SCRATCH_BENIGN(g) &&                                                     \
+   (((bg_size)(i) == G_P || (bg_size)(i) == G_Q) ||                           \
+    (bg_scratch_row.valid && bg_scratch_row.row.idx == (bg_size)(i))))
+/* ================= edge iterators (C08) ================= */
+/* it: an lvalue of struct L*G_<L>_Edges_EIt; g = the directed base object it walks */
+#define EIT_END_OF(g) ((g)->size == 0 ? (VertexIndex)0 : (VertexIndex)((g)->size - 1))
+#define EIT_ROW(it, g) D_ROW_C(g, (it).vertex)
+/* a valid position: vertex in range, cursor inside the row of that vertex (empty graph: the only
+   position is (0, value-initialised cursor)) */
+#define EIT_OK(it, g)                                                         \
+  ((it).endVertex == EIT_END_OF(g) && (it).vertex <= (it).endVertex &&        \
+   ((g)->size == 0                                                            \
+        ? ((it).neighbour.r.len == 0 && !(it).neighbour.poisoned && (it).neighbour.idx == BG_IT_SINGULAR_IDX) \
+        : (D_ROW_LOADED_C(g, (it).vertex) && IT_IN_ROW((it).neighbour, *EIT_ROW(it, g)))))
+/* the frontier follows this iterator and its rank counts the entries before the cursor */
+#define EIT_TRACKED(it, g)                                                    \
+  (bg_ghost_frontier.a == &(g)->adjacencyList &&                              \
+   ((g)->size == 0 ? (bg_ghost_frontier.F == 0 && bg_ghost_frontier.rank == 0 && bg_ghost_frontier.below == 0) \
+                   : (bg_ghost_frontier.F == (bg_size)(it).vertex &&          \
+                      bg_ghost_frontier.rank == bg_ghost_frontier.below + (EIT_ROW(it, g)->c.len - (it).neighbour.r.len))))
+#define EIT_SAME(a, b)                                                        \
+  ((a).vertex == (b).vertex && (a).endVertex == (b).endVertex && (a).graph == (b).graph && \
+   (a).neighbour.r.len == (b).neighbour.r.len && (a).neighbour.r.nP == (b).neighbour.r.nP && \
+   (a).neighbour.r.nQ == (b).neighbour.r.nQ && (a).neighbour.r.up == (b).neighbour.r.up && \
+   (a).neighbour.cur == (b).neighbour.cur && (a).neighbour.idx == (b).neighbour.idx && \
+   (a).neighbour.bound == (b).neighbour.bound && (a).neighbour.poisoned == (b).neighbour.poisoned)
 /* WF without the clean-cache clause */
 #define D_WF_LOOP(g) (D_WF_SAFE(g) && bg_cur_adj == &(g)->adjacencyList)
 /* cursor j is a valid position of row r */
